@@ -60,7 +60,7 @@ def floors(tier):
     return {'evaluations': 40 * scale, 'actions_train': 12 * scale, 'actions_apply': 10 * scale,
             'actions_serve': 6 * scale, 'actions_perftrack': 6 * scale, 'retrain_checked': 5 * scale, 'raced_actions': 2 * scale,
             'older_generation_checked': 4 * scale, 'states_compared': 30 * scale, 'hyper_parameters_checked': 60 * scale,
-            'commit_window_readers': 6 * scale}
+            'commit_window_readers': 6 * scale, 'twin_registry_actions': 2 * scale}
 
 
 def _w(i, style, a=None, t=None, l=None):
@@ -113,7 +113,7 @@ def directed():
 
 
 HISTORIES = [
-    ['train', 'apply', 'serve~race', 'perftrack', 'train', 'apply~race', 'apply@1', 'perftrack'],
+    ['train', 'apply', 'serve~race', 'perftrack', 'train', 'apply~race', 'apply@1', 'perftrack', 'apply^twin', 'serve^twin@1'],
     ['train', 'train~window', 'serve', 'apply@1', 'perftrack@1', 'train', 'apply', 'serve'],
     ['train', 'perftrack', 'apply', 'train', 'train@1', 'apply', 'serve', 'apply@2'],
     ['train*10', 'apply', 'train', 'serve', 'apply@9', 'perftrack'],  # more than nine generations
@@ -160,6 +160,7 @@ def run_history(ctx, label, expr, history, schedule, index):
             kind, _, race = kind.partition('~')
             kind, _, times = kind.partition('*')
             times = int(times) if times else 1
+            kind, _, twin = kind.partition('^')
             generation = int(explicit) if explicit else None
             if kind != 'train' and not model:
                 continue
@@ -191,6 +192,24 @@ def run_history(ctx, label, expr, history, schedule, index):
                     json.dump(racer, fd)
                 job['race'] = racer['out'] + '.job'
                 ctx.count('raced_actions')
+            if twin and model and kind != 'train':
+                # two registries in one process: a twin registry holds the same project / release / generation number with
+                # OTHER states (trained there on other data); the action's process reads that generation through the twin
+                # first and must still bind the states of its own registry
+                twinreg = os.path.join(workdir, f'twin{step}')
+                shutil.copytree(registry, twinreg)
+                for stale in range(target, max(model) + 1):
+                    shutil.rmtree(os.path.join(twinreg, 'p', '1', str(stale)))
+                other = {'registry': twinreg, 'project': 'p', 'release': '1', 'generation': None, 'action': 'train',
+                         'nonce': f'T{index}x{step}', 'out': os.path.join(workdir, f'{step}t.json'), 'gc': 'default',
+                         'epoch': f'T{step}'}
+                trained = spawn(other, workdir, core.REPO)
+                if trained.get('error') or 'crash' in trained or trained.get('timeout') or \
+                        max((g['key'] for g in trained.get('generations', ())), default=0) != target:
+                    ctx.inconclusive(f'twin registry could not be trained to generation {target}: {str(trained)[:300]}')
+                    return
+                job['prime'] = twinreg
+                ctx.count('twin_registry_actions')
             ctx.count('evaluations')
             ctx.count(f'actions_{kind}')
             ctx.shape((sig, kind, 'explicit' if explicit else 'latest', len(model), schedule, bool(racer), job['scheduler']))
